@@ -101,7 +101,7 @@ def s3(ck, an):
     if len(rets) != 1:
         ck.fail("CMP", "S3.box-contains-shape", subj, fa.f.loc, f"expected a single return in contains, found {len(rets)}", construct="return")
         return
-    conj = _conj(fa, rets[0].value)
+    conj = _conj(fa, deref(fa, rets[0].value)[0])
     found = {"shape": False, "low": False, "high": False}
     others = []
     for c in conj:
